@@ -563,6 +563,11 @@ func (nfs *Nfs) doRemove(dfh nfstypes.Nfs_fh3, name nfstypes.Filename3, isdir bo
 		util.DPrintf(0, "Remove failed\n")
 		return op, nfstypes.NFS3ERR_IO
 	}
+	if inodes[0].Kind == nfstypes.NF3DIR && inodes[1].Nlink > 1 {
+		// give back the link that ".." of the removed directory held on its parent
+		inodes[1].Nlink = inodes[1].Nlink - 1
+		inodes[1].WriteInode(op.Atxn)
+	}
 	nfs.doDecLink(op, inodes[0])
 	return op, nfstypes.NFS3_OK
 }
@@ -758,6 +763,11 @@ func (nfs *Nfs) NFSPROC3_RENAME(args nfstypes.RENAME3args) nfstypes.RENAME3res {
 					errRet(op, &reply.Status, nfstypes.NFS3ERR_IO)
 					done = true
 					break
+				}
+				if to.Kind == nfstypes.NF3DIR && dipto.Nlink > 1 {
+					// give back the link that ".." of the replaced directory held on its parent
+					dipto.Nlink = dipto.Nlink - 1
+					dipto.WriteInode(op.Atxn)
 				}
 				nfs.doDecLink(op, to)
 				success = true
